@@ -289,7 +289,9 @@ def refute(htu, fname, row, host_endian='little', small=False):
         opsets = [()]
     elif cls == 'atomic.cmpxchg':
         vals = OPERANDS[W][:6] if small else OPERANDS[W]
-        opsets = [(e, r) for e in vals[:5] + ['old'] for r in (vals[2], vals[-1])]
+        # 'old': an expectation equal to the cell; 'old|high': equal in the access width with bits set above it (the expectation is
+        # wrapped to the access width before the comparison: it matches, too)
+        opsets = [(e, r) for e in vals[:5] + ['old'] + (['old|high'] if n * 8 < W else []) for r in (vals[2], vals[-1])]
     elif isf:
         opsets = [(x,) for x in FLOATS[W]]
     else:
@@ -298,8 +300,9 @@ def refute(htu, fname, row, host_endian='little', small=False):
         for ops in opsets:
             mem = list(PATTERN)
             ops_c = list(ops)
-            if cls == 'atomic.cmpxchg' and ops_c[0] == 'old':
-                ops_c[0] = int.from_bytes(bytes(mem[addr:addr + n]), 'little')       # a matching expectation
+            if cls == 'atomic.cmpxchg' and ops_c[0] in ('old', 'old|high'):
+                hi = (((1 << W) - 1) & ~((1 << (8 * n)) - 1) & 0xA5A5A5A5A5A5A5A5) if ops_c[0] == 'old|high' else 0
+                ops_c[0] = int.from_bytes(bytes(mem[addr:addr + n]), 'little') | hi      # a matching expectation
             if isf and cls in ('store',):
                 want_ops = [value_bits(ops_c[0], 'float' if W == 32 else 'double')]
             else:
